@@ -163,22 +163,22 @@ theorem unify_mshape (f : Nat) : ∀ t1 t2 w, MShape (fun θ => t1.subst θ = t2
                 (bindGen_mshape _ _ _ hx)
           | atom s =>
             apply mshape_congr (U := fun θ => θ x = (Term.atom s).subst θ) (fun θ _ => by simp [Term.subst])
-            exact mshape_of_eq (g' := bindGen x (.atom s)) (w' := markCyc (f+1) x (.atom s) w) (markCyc_b' _ _ _ _)
+            exact mshape_of_eq (g' := bindGen x (.atom s)) (w' := markCyc cycFuel x (.atom s) w) (markCyc_b' _ _ _ _)
               (fun k => by simp only [unify, h1, h2]) (bindGen_mshape _ _ _ (by rw [markCyc_b']; exact hx))
           | int i =>
             apply mshape_congr (U := fun θ => θ x = (Term.int i).subst θ) (fun θ _ => by simp [Term.subst])
-            exact mshape_of_eq (g' := bindGen x (.int i)) (w' := markCyc (f+1) x (.int i) w) (markCyc_b' _ _ _ _)
+            exact mshape_of_eq (g' := bindGen x (.int i)) (w' := markCyc cycFuel x (.int i) w) (markCyc_b' _ _ _ _)
               (fun k => by simp only [unify, h1, h2]) (bindGen_mshape _ _ _ (by rw [markCyc_b']; exact hx))
           | fn g as =>
             apply mshape_congr (U := fun θ => θ x = (Term.fn g as).subst θ) (fun θ _ => by simp [Term.subst])
-            exact mshape_of_eq (g' := bindGen x (.fn g as)) (w' := markCyc (f+1) x (.fn g as) w) (markCyc_b' _ _ _ _)
+            exact mshape_of_eq (g' := bindGen x (.fn g as)) (w' := markCyc cycFuel x (.fn g as) w) (markCyc_b' _ _ _ _)
               (fun k => by simp only [unify, h1, h2]) (bindGen_mshape _ _ _ (by rw [markCyc_b']; exact hx))
         | atom s =>
           cases a2 with
           | var y =>
             have hy := walk_var_unbound w.b _ _ _ h2
             apply mshape_congr (U := fun θ => θ y = (Term.atom s).subst θ) (fun θ _ => by simp only [Term.subst]; exact ⟨Eq.symm, Eq.symm⟩)
-            exact mshape_of_eq (g' := bindGen y (.atom s)) (w' := markCyc (f+1) y (.atom s) w) (markCyc_b' _ _ _ _)
+            exact mshape_of_eq (g' := bindGen y (.atom s)) (w' := markCyc cycFuel y (.atom s) w) (markCyc_b' _ _ _ _)
               (fun k => by simp only [unify, h1, h2]) (bindGen_mshape _ _ _ (by rw [markCyc_b']; exact hy))
           | atom s' =>
             by_cases hs : s = s'
@@ -191,7 +191,7 @@ theorem unify_mshape (f : Nat) : ∀ t1 t2 w, MShape (fun θ => t1.subst θ = t2
           | var y =>
             have hy := walk_var_unbound w.b _ _ _ h2
             apply mshape_congr (U := fun θ => θ y = (Term.int i).subst θ) (fun θ _ => by simp only [Term.subst]; exact ⟨Eq.symm, Eq.symm⟩)
-            exact mshape_of_eq (g' := bindGen y (.int i)) (w' := markCyc (f+1) y (.int i) w) (markCyc_b' _ _ _ _)
+            exact mshape_of_eq (g' := bindGen y (.int i)) (w' := markCyc cycFuel y (.int i) w) (markCyc_b' _ _ _ _)
               (fun k => by simp only [unify, h1, h2]) (bindGen_mshape _ _ _ (by rw [markCyc_b']; exact hy))
           | atom s' => exact mshape_fail w (fun k => by simp [unify, h1, h2]) (fun θ _ h => by simp [Term.subst] at h)
           | int j =>
@@ -204,7 +204,7 @@ theorem unify_mshape (f : Nat) : ∀ t1 t2 w, MShape (fun θ => t1.subst θ = t2
           | var y =>
             have hy := walk_var_unbound w.b _ _ _ h2
             apply mshape_congr (U := fun θ => θ y = (Term.fn g as).subst θ) (fun θ _ => by simp only [Term.subst]; exact ⟨Eq.symm, Eq.symm⟩)
-            exact mshape_of_eq (g' := bindGen y (.fn g as)) (w' := markCyc (f+1) y (.fn g as) w) (markCyc_b' _ _ _ _)
+            exact mshape_of_eq (g' := bindGen y (.fn g as)) (w' := markCyc cycFuel y (.fn g as) w) (markCyc_b' _ _ _ _)
               (fun k => by simp only [unify, h1, h2]) (bindGen_mshape _ _ _ (by rw [markCyc_b']; exact hy))
           | atom s' => exact mshape_fail w (fun k => by simp [unify, h1, h2]) (fun θ _ h => by simp [Term.subst] at h)
           | int j => exact mshape_fail w (fun k => by simp [unify, h1, h2]) (fun θ _ h => by simp [Term.subst] at h)
